@@ -1,16 +1,21 @@
-// C14 correspondence harness: the real tapkee::embed on generated requests, with counting callbacks.
+// C14 / C13 correspondence harness: the real tapkee::embed on generated requests, with counting callbacks.
 // in : front N=10 cbs=kd stop=1 kw=method:meth:Isomap,num_neighbors:int:3,landmark_ratio:real:3/10
-// out: throw tapkee::wrong_parameter_error k=0 d=0 f=0 | echo=<ident>=<repr>;... # raw=<k>,<d>,<f>
-//      (`ok …`, `reached distance …`; `cbs` must equal the subset this binary was compiled for, -DCB_MASK)
+//        [via=chain:dk]   the request goes through tapkee::with(kw).withDistance(..).withKernel(..).embedRange(..)
+//                         (attachment order = the letters; must be a permutation of cbs) instead of tapkee::embed
+//        [throwcb=kd]     these (supplied) callbacks throw `undeclared` when invoked
+// out: throw tapkee::wrong_parameter_error k=0 d=0 f=0 | echo=<ident>=<repr>;... | routes=k>k,d>d # raw=<k>,<d>,<f>
+//      (`ok …`, `reached distance …`, `throw undeclared:distance …`; routes = slot>role of every callback
+//       invocation seen; `cbs` must equal the subset this binary was compiled for, -DCB_MASK)
 // Built WITHOUT -fopenmp: callbacks may throw (stop mode, dummy callbacks) and an exception must be able to
 // leave the library's parallel regions.
 #include <tapkee/tapkee.hpp>
 #include <tapkee/callbacks/dummy_callbacks.hpp>
+#include <tapkee/chain_interface.hpp>
 
+#include <set>
 #include <unistd.h>
 
-#include "front_tables.inc"
-#include "vcommon.hpp"
+#include "front_common.hpp"
 
 #ifndef CB_MASK
 #define CB_MASK 7 // bit 0 kernel, bit 1 distance, bit 2 features are real callbacks; the others are dummies
@@ -22,44 +27,58 @@ static struct
 {
     long k = 0, d = 0, f = 0;
     bool stop = false;
+    std::string throwing;
+    std::set<std::string> routes;
 } g;
 
 struct reached
 {
     const char* which;
 };
+struct undeclared
+{
+    const char* which;
+};
 
-struct counting_kernel
+// One callback type for all three roles: whatever slot the library stores it in, it answers, and it records
+// in which slot (member function called) an object created for which role was used.
+struct universal_callback
 {
     const DenseMatrix* X;
+    char role; // 'k', 'd' or 'f': what the harness attached it as
+    void seen(char slot) const
+    {
+        g.routes.insert(std::string(1, slot) + ">" + std::string(1, role));
+    }
     ScalarType kernel(IndexType a, IndexType b) const
     {
+        seen('k');
+        if (g.throwing.find('k') != std::string::npos)
+            throw undeclared{"kernel"};
         if (g.stop)
             throw reached{"kernel"};
         g.k++;
         return X->col(a).dot(X->col(b));
     }
-};
-struct counting_distance
-{
-    const DenseMatrix* X;
     ScalarType distance(IndexType a, IndexType b) const
     {
+        seen('d');
+        if (g.throwing.find('d') != std::string::npos)
+            throw undeclared{"distance"};
         if (g.stop)
             throw reached{"distance"};
         g.d++;
         return (X->col(a) - X->col(b)).norm();
     }
-};
-struct counting_features
-{
-    const DenseMatrix* X;
     IndexType dimension() const
     {
         return static_cast<IndexType>(X->rows());
     }
     void vector(IndexType i, DenseVector& v) const
     {
+        seen('f');
+        if (g.throwing.find('f') != std::string::npos)
+            throw undeclared{"features"};
         g.f++;
         v = X->col(i);
     }
@@ -85,125 +104,70 @@ struct capture_logger : public LoggerImplementation
     }
 };
 
-static bool cancel_true()
+typedef std::vector<IndexType>::iterator Iter;
+
+// the chain interface, every attachment order of the subset this binary supplies
+static TapkeeOutput via_chain(const std::string& order, const stichwort::ParametersSet& set, Iter b, Iter e,
+                              const universal_callback& K, const universal_callback& D, const universal_callback& F)
 {
-    return true;
-}
-static bool cancel_false()
-{
-    return false;
-}
-static void progress_fn(double)
-{
+    (void)K;
+    (void)D;
+    (void)F;
+    auto P = tapkee::with(set);
+#if CB_MASK == 0
+    if (order == "")
+        throw std::runtime_error("the chain interface has no embedRange without callbacks");
+#elif CB_MASK == 1
+    if (order == "k")
+        return P.withKernel(K).embedRange(b, e);
+#elif CB_MASK == 2
+    if (order == "d")
+        return P.withDistance(D).embedRange(b, e);
+#elif CB_MASK == 4
+    if (order == "f")
+        return P.withFeatures(F).embedRange(b, e);
+#elif CB_MASK == 3
+    if (order == "kd")
+        return P.withKernel(K).withDistance(D).embedRange(b, e);
+    if (order == "dk")
+        return P.withDistance(D).withKernel(K).embedRange(b, e);
+#elif CB_MASK == 5
+    if (order == "kf")
+        return P.withKernel(K).withFeatures(F).embedRange(b, e);
+    if (order == "fk")
+        return P.withFeatures(F).withKernel(K).embedRange(b, e);
+#elif CB_MASK == 6
+    if (order == "df")
+        return P.withDistance(D).withFeatures(F).embedRange(b, e);
+    if (order == "fd")
+        return P.withFeatures(F).withDistance(D).embedRange(b, e);
+#elif CB_MASK == 7
+    if (order == "kdf")
+        return P.withKernel(K).withDistance(D).withFeatures(F).embedRange(b, e);
+    if (order == "kfd")
+        return P.withKernel(K).withFeatures(F).withDistance(D).embedRange(b, e);
+    if (order == "dkf")
+        return P.withDistance(D).withKernel(K).withFeatures(F).embedRange(b, e);
+    if (order == "dfk")
+        return P.withDistance(D).withFeatures(F).withKernel(K).embedRange(b, e);
+    if (order == "fkd")
+        return P.withFeatures(F).withKernel(K).withDistance(D).embedRange(b, e);
+    if (order == "fdk")
+        return P.withFeatures(F).withDistance(D).withKernel(K).embedRange(b, e);
+#endif
+    throw std::runtime_error("attachment order '" + order + "' is not a permutation of this binary's callbacks");
 }
 
-static std::string keyword_name(const std::string& ident)
+template <bool real, class Dummy> struct pick
 {
-#define X(k, ty)                                                                                                       \
-    if (ident == #k)                                                                                                   \
-        return std::string(tapkee::k);
-    VERIF_KEYWORDS(X)
-#undef X
-    throw std::runtime_error("unknown keyword " + ident);
-}
-
-static std::string keyword_ident(const std::string& name)
-{
-#define X(k, ty)                                                                                                       \
-    if (name == std::string(tapkee::k))                                                                                \
-        return #k;
-    VERIF_KEYWORDS(X)
-#undef X
-    return "?" + name;
-}
-
-static stichwort::Parameter make_param(const std::string& item)
-{
-    auto c1 = item.find(':');
-    auto c2 = item.find(':', c1 + 1);
-    std::string ident = item.substr(0, c1), ty = item.substr(c1 + 1, c2 - c1 - 1), v = item.substr(c2 + 1);
-    std::string name = keyword_name(ident);
-    using stichwort::Parameter;
-    if (ty == "default")
+    static universal_callback make(const universal_callback& u)
     {
-#define X(k, t)                                                                                                        \
-    if (ident == #k)                                                                                                   \
-        return (tapkee::k = stichwort::by_default);
-        VERIF_KEYWORDS(X)
-#undef X
-    }
-    if (ty == "int")
-        return Parameter::create(name, static_cast<IndexType>(std::stol(v)));
-    if (ty == "real")
-        return Parameter::create(name, static_cast<ScalarType>(vh::parse_num(v)));
-    if (ty == "bool")
-        return Parameter::create(name, v == "1");
-    if (ty == "meth")
-    {
-#define X(m)                                                                                                           \
-    if (v == #m)                                                                                                       \
-        return Parameter::create(name, DimensionReductionMethod(tapkee::m));
-        VERIF_METHODS(X)
-#undef X
-    }
-    if (ty == "nbrs")
-    {
-#define X(m)                                                                                                           \
-    if (v == #m)                                                                                                       \
-        return Parameter::create(name, NeighborsMethod(tapkee::m));
-        VERIF_NEIGHBORS_METHODS(X)
-#undef X
-    }
-    if (ty == "eig")
-    {
-#define X(m)                                                                                                           \
-    if (v == #m)                                                                                                       \
-        return Parameter::create(name, EigenMethod(tapkee::m));
-        VERIF_EIGEN_METHODS(X)
-#undef X
-    }
-    if (ty == "strat")
-    {
-#define X(m)                                                                                                           \
-    if (v == #m)                                                                                                       \
-        return Parameter::create(name, ComputationStrategy(tapkee::m));
-        VERIF_STRATEGIES(X)
-#undef X
-    }
-    if (ty == "cancel")
-    {
-        bool (*fn)() = v == "true" ? cancel_true : v == "false" ? cancel_false : nullptr;
-        return Parameter::create(name, fn);
-    }
-    if (ty == "progress")
-    {
-        void (*fn)(double) = v == "fn" ? progress_fn : nullptr;
-        return Parameter::create(name, fn);
-    }
-    if (ty == "other")
-    {
-        if (v == "long")
-            return Parameter::create(name, 2L);
-        if (v == "float")
-            return Parameter::create(name, 0.5f);
-        if (v == "uint")
-            return Parameter::create(name, 2u);
-        if (v == "cstr")
-            return Parameter::create(name, static_cast<const char*>("x"));
-    }
-    throw std::runtime_error("bad item " + item);
-}
-
-template <bool real, class Real, class Dummy> struct pick
-{
-    static Real make(const DenseMatrix* X)
-    {
-        return Real{X};
+        return u;
     }
 };
-template <class Real, class Dummy> struct pick<false, Real, Dummy>
+template <class Dummy> struct pick<false, Dummy>
 {
-    static Dummy make(const DenseMatrix*)
+    static Dummy make(const universal_callback&)
     {
         return Dummy();
     }
@@ -252,33 +216,39 @@ int main()
         std::string outcome, what;
         g.k = g.d = g.f = 0;
         g.stop = f.count("stop") && f["stop"] == "1";
+        g.throwing = f.count("throwcb") ? f["throwcb"] : "";
+        g.routes.clear();
         g_echo.clear();
         std::srand(1);
         tapkee::verif_shuffle_generator().seed(5489u);
         try
         {
-            std::vector<stichwort::Parameter> ps;
-            for (auto& item : vh::split(f.count("kw") ? f["kw"] : "", ','))
-                ps.push_back(make_param(item));
-            // the keyword expression (p1, p2, ..., pn): Parameter::operator, then ParametersSet::operator,
-            stichwort::ParametersSet set;
-            if (ps.size() == 1)
-                set = ps[0];
-            else if (ps.size() >= 2)
+            stichwort::ParametersSet set = vfront::make_set(f.count("kw") ? f["kw"] : "");
+            universal_callback K{&X, 'k'}, Dc{&X, 'd'}, F{&X, 'f'};
+            std::string via = f.count("via") ? f["via"] : "direct";
+            if (via.compare(0, 6, "chain:") == 0)
+                via_chain(via.substr(6), set, idx.begin(), idx.end(), K, Dc, F);
+            else
             {
-                set = (ps[0], ps[1]);
-                for (size_t i = 2; i < ps.size(); i++)
-                    (set, ps[i]);
+                auto kcb = pick<(CB_MASK & 1) != 0, dummy_kernel_callback<IndexType>>::make(K);
+                auto dcb = pick<(CB_MASK & 2) != 0, dummy_distance_callback<IndexType>>::make(Dc);
+                auto fcb = pick<(CB_MASK & 4) != 0, dummy_features_callback<IndexType>>::make(F);
+                tapkee::embed(idx.begin(), idx.end(), kcb, dcb, fcb, set);
             }
-            auto kcb = pick<(CB_MASK & 1) != 0, counting_kernel, dummy_kernel_callback<IndexType>>::make(&X);
-            auto dcb = pick<(CB_MASK & 2) != 0, counting_distance, dummy_distance_callback<IndexType>>::make(&X);
-            auto fcb = pick<(CB_MASK & 4) != 0, counting_features, dummy_features_callback<IndexType>>::make(&X);
-            TapkeeOutput result = tapkee::embed(idx.begin(), idx.end(), kcb, dcb, fcb, set);
             outcome = "ok";
         }
         catch (const reached& r)
         {
             outcome = std::string("reached ") + r.which;
+        }
+        catch (const undeclared& r)
+        {
+            outcome = std::string("throw undeclared:") + r.which;
+        }
+        catch (const tapkee::unsupported_method_error& e)
+        {
+            outcome = "throw tapkee::unsupported_method_error";
+            what = e.what();
         }
 #define CATCH(ns, cls)                                                                                                 \
     catch (const ns::cls&)                                                                                             \
@@ -286,11 +256,6 @@ int main()
         outcome = "throw " #ns "::" #cls;                                                                              \
     }
         CATCH(tapkee, no_data_error)
-        catch (const tapkee::unsupported_method_error& e)
-        {
-            outcome = "throw tapkee::unsupported_method_error";
-            what = e.what();
-        }
         CATCH(tapkee, not_enough_memory_error)
         CATCH(tapkee, cancelled_exception)
         CATCH(tapkee, eigendecomposition_error)
@@ -323,9 +288,18 @@ int main()
             for (auto& c : v)
                 if (c == ' ' || c == ';')
                     c = '_';
-            o << (first ? "" : ";") << keyword_ident(kv.first) << "=" << v;
+            o << (first ? "" : ";") << vfront::keyword_ident(kv.first) << "=" << v;
             first = false;
         }
+        o << " | routes=";
+        first = true;
+        for (auto& r : g.routes)
+        {
+            o << (first ? "" : ",") << r;
+            first = false;
+        }
+        if (g.routes.empty())
+            o << "-";
         o << " # raw=" << g.k << "," << g.d << "," << g.f;
         if (!what.empty())
         {
